@@ -30,7 +30,14 @@ COSTS = {
     "float": gen.dyadic_costs,
     "big": st.one_of(big_ints, gen.small_int_costs),
     "bigfloat": st.one_of(st.integers(-10**15, 10**15).map(lambda k: k + 0.5), gen.dyadic_costs),
+    # tables handed over as fixed-width numpy arrays (the repository's own tests use np.int8 tables): values near
+    # the ends of the type's range, so that sums of two cells leave it
+    "int8": st.one_of(st.integers(100, 127), st.integers(-128, -100), st.integers(-128, 127)),
+    "int32": st.one_of(st.integers(2**31 - 40, 2**31 - 1), st.integers(-2**31, -2**31 + 40), gen.small_int_costs),
+    # near-ties on a large offset: relative differences below 1e-9, absolute ones of a few units
+    "offset": st.integers(0, 6).map(lambda k: k + 10**10),
 }
+DTYPES = {"int8": "int8", "int32": "int32"}
 
 
 @st.composite
@@ -51,11 +58,14 @@ def cases(draw):
         shape = [len(domains["d%d" % names.index(s)]) for s in scope]
         rels.append({"name": "r%d" % k, "scope": scope, "kind": "matrix",
                      "table": gen.nested_table(draw, shape, COSTS[ck])})
+        if ck in DTYPES:
+            rels[-1]["dtype"] = DTYPES[ck]
     case = {"domains": domains, "variables": variables, "constraints": rels, "op": op, "costs": ck}
     scope = rels[0]["scope"]
     if op == "set":
         case["assignment"] = [draw(st.sampled_from(domains["d%d" % names.index(s)])) for s in scope]
-        case["new_value"] = draw(st.one_of(COSTS[ck], gen.small_int_costs, gen.dyadic_costs))
+        case["new_value"] = draw(COSTS[ck] if ck in DTYPES else
+                                 st.one_of(COSTS[ck], gen.small_int_costs, gen.dyadic_costs))
         case["form"] = draw(st.sampled_from(["dict", "list"]))
         # the dict form names its variables: its key order is free (a permutation seed, 0 = dimension order)
         case["key_order"] = draw(st.integers(0, 23))
